@@ -4412,6 +4412,9 @@ look_sysfsnode(struct hwloc_topology *topology,
         fprintf(stderr, "hwloc/linux: node P#%u cpuset intersects with previous nodes, forcing its acceptance\n", osnode);
     }
     hwloc_bitmap_or(nodes_cpuset, nodes_cpuset, cpuset);
+    /* only keep the CPUs that exist as PUs (a cpumap may list CPUs that are offline or have no topology directory) */
+    if (!hwloc_bitmap_iszero(topology->levels[0][0]->cpuset))
+      hwloc_bitmap_and(cpuset, cpuset, topology->levels[0][0]->cpuset);
 
     node = hwloc_alloc_setup_object(topology, HWLOC_OBJ_NUMANODE, osnode);
     node->cpuset = cpuset;
